@@ -657,7 +657,14 @@ func (f *indexFetcher) tryCreateOrderedIndexIterator() (indexIterator, error) {
 		if err != nil {
 			return nil, err
 		}
-		iter := f.newPrefixBaseMatchIterator(key, nil, f.execInfo).Reverse(reverse)
+		var iter indexIterator = f.newPrefixBaseMatchIterator(key, nil, f.execInfo).Reverse(reverse)
+		for _, field := range f.indexedFields {
+			if field.Kind.IsArray() || field.Kind == client.FieldKind_NILLABLE_JSON {
+				// an array or JSON field has an index entry per element, a document must come out once
+				iter = &memorizingIndexIterator{inner: iter}
+				break
+			}
+		}
 		return iter, nil
 	}
 	return nil, nil
